@@ -1,0 +1,34 @@
+//go:build verif
+
+package acme
+
+import (
+	"crypto/x509"
+	"net"
+)
+
+// Thin wrappers for the C11 verification harness (/verif). Add-only; never built without -tags verif.
+
+// VerifReverseAddr exposes reverseAddr.
+func VerifReverseAddr(ip net.IP) string { return reverseAddr(ip) }
+
+// VerifServerName exposes serverName.
+func VerifServerName(ch *Challenge) string { return serverName(ch) }
+
+// VerifHTTP01ChallengeHost exposes http01ChallengeHost.
+func VerifHTTP01ChallengeHost(value string) string { return http01ChallengeHost(value) }
+
+// VerifTLSALPN01ChallengeHost exposes tlsAlpn01ChallengeHost.
+func VerifTLSALPN01ChallengeHost(name string) string { return tlsAlpn01ChallengeHost(name) }
+
+// VerifDNS01ChallengeHost exposes dns01ChallengeHost.
+func VerifDNS01ChallengeHost(domain string) string { return dns01ChallengeHost(domain) }
+
+// Built-in vendor roots used when the provisioner configures no attestation roots.
+const (
+	VerifYubicoPIVRootCA                  = yubicoPIVRootCA
+	VerifAppleEnterpriseAttestationRootCA = appleEnterpriseAttestationRootCA
+)
+
+// VerifValidateAKCertificate exposes validateAKCertificate.
+func VerifValidateAKCertificate(c *x509.Certificate) error { return validateAKCertificate(c) }
